@@ -300,21 +300,18 @@ impl<F: Flavor> Sys<F> {
         for (i, x) in self.rs.iter().enumerate() {
             if let Some(x) = x {
                 let node = F::recv_node(x.fut.get());
-                let linked = node.tag == 1;
-                r.push(LiveNode { group: GR, slot: i, node, linked_expected: linked });
+                r.push(LiveNode::new(GR, i, node, &x.meta));
             }
         }
         if let Some(x) = &self.st {
             if let Some(node) = F::stream_node(x.st.get()) {
-                let linked = node.tag == 1;
-                r.push(LiveNode { group: GST, slot: 0, node, linked_expected: linked });
+                r.push(LiveNode::new(GST, 0, node, &x.meta));
             }
         }
         for (i, x) in self.ss.iter().enumerate() {
             if let Some(x) = x {
                 let node = F::send_node(x.fut.get());
-                let linked = node.tag == 1;
-                s.push(LiveNode { group: GS, slot: i, node, linked_expected: linked });
+                s.push(LiveNode::new(GS, i, node, &x.meta));
             }
         }
         (r, s)
